@@ -24,11 +24,11 @@ func Envelope(m p2pmsg.Message) []byte {
 
 // Delivery is the outcome of handing one gossip message to a node.
 type Delivery struct {
-	Verdict  pubsub.ValidationResult
-	Handled  bool
-	Out      []p2pmsg.Message // messages returned by the handlers
-	Err      error            // handler error
-	Panic    string           // non-empty if validation or handling panicked
+	Verdict pubsub.ValidationResult
+	Handled bool
+	Out     []p2pmsg.Message // messages returned by the handlers
+	Err     error            // handler error
+	Panic   string           // non-empty if validation or handling panicked
 }
 
 func (d Delivery) VerdictString() string {
